@@ -312,8 +312,21 @@ def c10_4(ctx):
         wE = sym.int_walk(ctx, ei, firsts)
         padded = [e for e in wE.exits if e.kind == "return" and e.value is not None and _re.search(r"b'\\x00' \+", norm(e.value))]
         plain = [e for e in wE.exits if e.kind == "return" and e.value is not None and not _re.search(r"b'\\x00' \+", norm(e.value))]
+        opq = set()
+        for e in padded + plain:
+            opq |= {a for a in (gi.f_opaques(e.cond) if e.cond not in (True, False) else []) if isinstance(a, str) and any(f_ in a for f_ in firsts)}
+        bits7 = {a for a in opq if _re.fullmatch(r"bit\((.+\[0\]), 7\)", a)}
         if not padded or not plain:
             ctx.undecided("der-pad-iff-top-bit", ctx.where(ei), "encode_integer: padded and unpadded results not told apart by this rule")
+        elif opq and opq == bits7:
+            # the top bit is tested as a bit: padded exactly on the paths where it is set
+            okp = all(any(sym.entails(e.cond, ("op", a)) for a in bits7) for e in padded)
+            okn = all(any(sym.entails(e.cond, ("not", ("op", a))) for a in bits7) for e in plain)
+            ctx.check(okp and okn, "der-pad-iff-top-bit", ctx.where(ei), "encode_integer: the 00 pad is %s and the unpadded form is %s; DER needs the pad exactly when the top bit of the first byte is set"
+                      % ("written only when the top bit of the first byte is set" if okp else "written on a path where the top bit is not known to be set", "written only when it is clear" if okn else "written on a path where the top bit may be set"),
+                      sample={"pads_for_first_byte": "top bit set", "no_pad_for": "top bit clear"})
+        elif opq:
+            ctx.undecided("der-pad-iff-top-bit", ctx.where(ei), "encode_integer tests the first byte with `%s`; this rule reads comparisons with constants and the bit test `& 0x80`" % sorted(opq)[0][:60])
         else:
             byte = iv(0, 255)
             sp = E
